@@ -151,7 +151,7 @@ func scenarioClient(sp Spec, oc *Outcome) {
 			}
 		}()
 	}
-	timedClose(oc, recC, co, p.c.Close)
+	timedClose(oc, recC, co, baseG, "client", p.c.Close)
 	close(noiseStop)
 	if oc.Hang {
 		oc.Events, oc.Counts, oc.Dropped = recC.Snapshot()
